@@ -131,7 +131,7 @@ impl Scenario for C07 {
             components_stubbed: &["TCP (SimNet)", "EPMD (stub)", "remote node (handshake acceptor + independent frame, header and term reader)"],
             assumptions: &["payloads come from the sub-space with an unambiguous denotation (DESIGN 2.4); node-local identifier forms are not generated"],
             fault_prefixes: &["fault.", "net."],
-            expected_probes: &["probe.c07.frame_checked_passthrough", "probe.c07.frame_checked_header", "probe.c07.interleaved_tasks", "probe.c07.op_failed_after_fault", "probe.c07.unlink_id_above_2_63", "probe.c07.asymmetric_flag_offer", "probe.c07.node_local_identifier", "probe.c07.unencodable_rejected_cleanly", "probe.c07.nothing_written_after_failed_handshake"],
+            expected_probes: &["probe.c07.frame_checked_passthrough", "probe.c07.frame_checked_header", "probe.c07.interleaved_tasks", "probe.c07.op_failed_after_fault", "probe.c07.unlink_id_above_2_63", "probe.c07.asymmetric_flag_offer", "probe.c07.node_local_identifier", "probe.c07.same_process_other_form", "probe.c07.same_pair_again", "probe.c07.local_side_is_a_live_process", "probe.c07.unencodable_rejected_cleanly", "probe.c07.nothing_written_after_failed_handshake"],
         }
     }
 }
@@ -252,16 +252,38 @@ async fn scenario(w: &Arc<World>, p: &Plan) {
             w.violation("HARNESS-setup", format!("connect failed: {}", e));
             return;
         }
+        // in half of the runs the local side of every operation is a process this node really runs
+        struct Idle;
+        impl edp_node::Process for Idle {
+            async fn handle_message(&mut self, _m: edp_node::Message) -> edp_node::Result<()> {
+                Ok(())
+            }
+        }
+        let mut spawned: Vec<Option<Val>> = Vec::new();
+        for _ in 0..p.tasks.len() {
+            spawned.push(if p.salt & 1 == 1 { node.spawn(Idle).await.ok().map(|pid| pid_val(&pid)) } else { None });
+        }
+        if p.salt & 1 == 1 {
+            w.stat("probe.c07.local_side_is_a_live_process");
+        }
         let mut handles = Vec::new();
         for (ti, ops) in p.tasks.iter().enumerate() {
             let (node, ops, wants, w) = (node.clone(), ops.clone(), wants.clone(), w.clone());
+            let my_pid = spawned[ti].clone();
             handles.push(tokio::spawn(async move {
+                let mut prev_to: Option<Val> = None;
                 for (ix, op) in ops.iter().enumerate() {
                     if op.pause_ms > 0 {
                         tokio::time::sleep(Duration::from_millis(u64::from(op.pause_ms))).await;
                     }
-                    let to = peer_pid_for(ti, ix, op.seed);
-                    let from = local_pid_for(ti);
+                    let mut to = peer_pid_for(ti, ix, op.seed);
+                    // the same remote process as in this task's previous operation (the same pair again)
+                    if let Some(prev) = prev_to.clone().filter(|_| (op.seed >> 8) % 4 == 1) {
+                        to = prev;
+                        w.stat("probe.c07.same_pair_again");
+                    }
+                    prev_to = Some(to.clone());
+                    let from = my_pid.clone().unwrap_or_else(|| local_pid_for(ti));
                     let (to_e, from_e) = (to_pid(&to).unwrap(), to_pid(&from).unwrap());
                     let mut want = Want { task: ti, idx: ix, kind: op.kind.clone(), control: Vec::new(), payload: None, ok: false, err: String::new(), expect_err: false };
                     let res: Result<(), String> = match op.kind.as_str() {
@@ -346,6 +368,7 @@ async fn scenario(w: &Arc<World>, p: &Plan) {
             w.violation("HARNESS-setup", "negotiated mode differs from the plan".to_string());
             return;
         }
+        let mut prev_to: Option<Val> = None;
         for (ix, op) in p.tasks[0].iter().enumerate() {
             if op.pause_ms > 0 {
                 tokio::time::sleep(Duration::from_millis(u64::from(op.pause_ms))).await;
@@ -357,6 +380,17 @@ async fn scenario(w: &Arc<World>, p: &Plan) {
                 to = Val::Local(rr.bytes(8), Box::new(to));
                 w.stat("probe.c07.node_local_identifier");
             }
+            // the same process as in the previous operation, named in another form: plain after
+            // node-local, node-local after plain, or node-local with other opaque bytes
+            if let Some(prev) = prev_to.clone().filter(|_| (op.seed >> 8) % 5 == 1) {
+                to = match prev {
+                    Val::Local(_, inner) if (op.seed >> 12) % 2 == 0 => *inner,
+                    Val::Local(_, inner) => Val::Local(rr.bytes(8), inner),
+                    plain => Val::Local(rr.bytes(8), Box::new(plain)),
+                };
+                w.stat("probe.c07.same_process_other_form");
+            }
+            prev_to = Some(to.clone());
             let from = local_pid_for(0);
             let (to_e, from_e) = (to_pid(&to).unwrap(), to_pid(&from).unwrap());
             let mut want = Want { task: 0, idx: ix, kind: op.kind.clone(), control: Vec::new(), payload: None, ok: false, err: String::new(), expect_err: false };
